@@ -103,11 +103,11 @@ Expect(A, ts) ==
   ELSE LET tot == SumCoefs(A, ts, UIdx(ts)) IN
        IF IsU(tot) \/ IsZero(tot) \/ IsU(ExprVal(A, ts)) THEN "open" ELSE "equation"
 
-\* allowed values of (lhs - rhs) of the returned equation
-Allowed(A, ts, reduce) ==
-  LET e == ExprVal(A, ts) IN
-  IF reduce THEN UNION {{Mul(Inv(k), e), Neg(Mul(Inv(k), e))} : k \in Divisors(A, ts)}
+\* allowed values of (lhs - rhs) of the returned equation, from the original expression e and the divisors ks
+AllowedOf(e, ks, reduce) ==
+  IF reduce THEN UNION {{Mul(Inv(k), e), Neg(Mul(Inv(k), e))} : k \in ks}
   ELSE {e, Neg(e)}
+Allowed(A, ts, reduce) == AllowedOf(ExprVal(A, ts), Divisors(A, ts), reduce)
 
 \* verdict on a returned equation with side values l, r:  "ok" | "bad" | "un"
 SolveVerdict(A, ts, reduce, l, r) ==
@@ -202,19 +202,22 @@ VecDone == mode = "vec" /\ fin.done
 
 \* moving a term to the other side of Eq with its coefficient negated does not change the equation
 Moved(ts, j) == [ts EXCEPT ![j] = <<Append(ts[j][1], <<"neg", 0>>), ts[j][2], IF ts[j][3] = "l" THEN "r" ELSE "l">>]
-MoveNegates == VecDone => \A i \in 1..NA : \A j \in DOMAIN Ts :
-  LET e == ExprVal(Assigns[i], Ts)  em == ExprVal(Assigns[i], Moved(Ts, j)) IN
-  (Def(e) /\ Def(em)) => e = em
+MoveNegates == (VecDone /\ fin.op = "solve" /\ fin.reduce) => \A i \in 1..NA :
+  LET ts == Ts  e == ExprVal(Assigns[i], ts) IN
+  \A j \in DOMAIN ts : LET em == ExprVal(Assigns[i], Moved(ts, j)) IN (Def(e) /\ Def(em)) => e = em
 
 \* every allowed rearrangement is equivalent to the original equation, and with reduction on it
 \* differs from it by the division by one of the unknown's coefficients
 Equivalent == (VecDone /\ fin.op = "solve") => \A i \in 1..NA :
-  LET A == Assigns[i]  e == ExprVal(A, Ts) IN
-  (Expect(A, Ts) = "equation") =>
-     /\ Allowed(A, Ts, fin.reduce) # {}
-     /\ \A d \in Allowed(A, Ts, fin.reduce) : Def(d) => (IsZero(d) <=> IsZero(e))
-     /\ (fin.reduce => \A d \in Allowed(A, Ts, TRUE) : Def(d) =>
-            \E k \in Divisors(A, Ts) : Mul(k, d) = e \/ Mul(k, d) = Neg(e))
+  LET A == Assigns[i]
+      ts == Ts
+      e == ExprVal(A, ts)
+      ks == Divisors(A, ts)
+      al == AllowedOf(e, ks, fin.reduce) IN
+  (Expect(A, ts) = "equation") =>
+     /\ al # {}
+     /\ \A d \in al : Def(d) => (IsZero(d) <=> IsZero(e))
+     /\ (fin.reduce => \A d \in al : Def(d) => \E k \in ks : Mul(k, d) = e \/ Mul(k, d) = Neg(e))
 
 \* when the unknown occurs in exactly one term and nowhere else, the right-hand side u = -(E - k u)/k
 \* of the reduced rearrangement is its solution: substituted for u it makes the expression vanish
@@ -242,19 +245,14 @@ TypeOK == /\ mode \in {"start", "vec", "nonvec", "scalar"}
 -----------------------------------------------------------------------------
 (* Emission (spec -> code).                                                  *)
 ExpectRec(A) ==
-  [kind |-> Expect(A, Ts), e |-> ExprVal(A, Ts), ks |-> Divisors(A, Ts),
-   al |-> IF fin.op = "apply" THEN ApplyFn(A, fin.fn, LhsVal(A, Ts)) ELSE Undef,
-   ar |-> IF fin.op = "apply" THEN ApplyFn(A, fin.fn, RhsVal(A, Ts)) ELSE Undef]
+  LET ts == Ts IN
+  IF fin.op = "apply"
+  THEN [kind |-> "apply", al |-> ApplyFn(A, fin.fn, LhsVal(A, ts)), ar |-> ApplyFn(A, fin.fn, RhsVal(A, ts))]
+  ELSE [kind |-> Expect(A, ts), e |-> ExprVal(A, ts), ks |-> Divisors(A, ts)]
 Emit ==
   fin.done =>
     PrintT(ToJson(
-      IF mode = "vec" THEN
-        [mode |-> mode, op |-> fin.op, form |-> fin.form, reduce |-> fin.reduce, fn |-> fin.fn, ts |-> Ts,
-         kinds |-> [j \in DOMAIN terms |-> TermKinds[terms[j]]], exp |-> [i \in 1..NA |-> ExpectRec(Assigns[i])]]
-      ELSE IF mode = "nonvec" THEN
-        [mode |-> mode, op |-> fin.op, form |-> fin.form, reduce |-> fin.reduce, fn |-> fin.fn,
-         ts |-> <<NonVecProg[terms[1]]>>, kinds |-> terms, exp |-> <<>>]
-      ELSE
-        [mode |-> mode, op |-> fin.op, form |-> fin.form, reduce |-> fin.reduce, fn |-> fin.fn,
-         ts |-> ScalProgs, kinds |-> terms, exp |-> <<>>]))
+      [mode |-> mode, op |-> fin.op, form |-> fin.form, reduce |-> fin.reduce, fn |-> fin.fn,
+       ts |-> IF mode = "vec" THEN Ts ELSE IF mode = "nonvec" THEN <<NonVecProg[terms[1]]>> ELSE ScalProgs,
+       exp |-> IF mode = "vec" THEN [i \in 1..NA |-> ExpectRec(Assigns[i])] ELSE <<>>]))
 =============================================================================
